@@ -52,7 +52,7 @@ pub use crate::connection::{
 #[cfg(feature = "qlog")]
 pub use connection::qlog::QlogStream;
 #[cfg(feature = "verif-probe")]
-pub use connection::VerifProbe;
+pub use connection::{VerifProbe, verif_rtt_estimator};
 
 #[cfg(feature = "rustls")]
 pub use rustls;
